@@ -1445,6 +1445,30 @@ def f_denominator(c):
             k = Contract('denom_ctor_simd', ['C15'], requires=req, ensures=ens, cxx='%s({0})' % ('avel::Denominator<%s>' % t.cxx()), flags=['div'])
             k.defines = ['AVM_DIV_UF']
             return k
+        if pct == t.ct and t.W > 1 and t.bits == 32 and not t.signed:
+            # unsigned 32-bit lanes: the magic numbers come from 64-bit lane divisions (scalar divide per 64-bit lane,
+            # uninterpreted): lane-wise code-level contract -- every lane stores the Granlund-Montgomery parameters of its
+            # own divisor (modulo-lemma L3); no trap for any non-zero lanes
+            flds = dict(S[fn['owner']])
+            sh1t = T(flds['sh1'], S)
+            d0 = c.a(0)
+            req = ['%s != 0' % t.lane(d0, i) for i in range(t.W)]
+            ens = []
+            for i in range(t.W):
+                dl = '(uint32_t)%s' % t.lane(d0, i)
+                l = 'spec_ceil_log2(%s, 32)' % dl
+                sh1 = sh1t.view('(%s).sh1' % RV, i) if sh1t.kind == 'mask' else '(%s != 0)' % sh1t.lane('(%s).sh1' % RV, i)
+                ens.append(('lane %d stores the round-up reciprocal of its divisor' % i, '(uint32_t)%s == spec_gm_magic_u32(%s, %s)' % (t.lane('(%s).m' % RV, i), dl, l)))
+                ens.append(('lane %d stores sh1 = min(l, 1)' % i, '%s == (%s >= 1u)' % (sh1, l)))
+                ens.append(('lane %d stores sh2 = l - sh1' % i, '(uint32_t)%s == (uint32_t)(%s - (%s >= 1u ? 1u : 0u))' % (t.lane('(%s).sh2' % RV, i), l, l)))
+                ens.append(('value() reports the divisor, lane %d' % i, '%s == %s' % (t.lane('(%s).d' % RV, i), t.lane(d0, i))))
+            if sh1t.kind == 'mask':
+                ens.append(('sh1 is a well-formed mask', sh1t.wf('(%s).sh1' % RV)))
+            else:
+                ens += [('sh1 lane %d is 0 or 1' % i, '%s <= 1' % sh1t.lane('(%s).sh1' % RV, i)) for i in range(t.W)]
+            k = Contract('denom_ctor_simd', ['C15'], requires=req, ensures=ens, cxx='%s({0})' % ('avel::Denominator<%s>' % t.cxx()), flags=['div'])
+            k.defines = ['AVM_DIV_UF']
+            return k
         if pct == t.ct and t.W > 1:
             # SIMD constructors run vector division loops on a symbolic divisor (beyond the solvers); they are executed
             # -- with every safety check on -- inside each div / operator obligation, which builds its denominator with them
@@ -1512,6 +1536,7 @@ def f_denominator(c):
             return None
         k.extra_roots = [ctor]
         k.denom = {'t': t, 'vec': vec, 'ctor': ctor, 'dct': c.P[1]['ctype'], 'nct': t.ct, 'pn': (c.P[0]['name'], c.P[1]['name'])}
+        k.S = S
         if t.bits > 8 or t.W > 1:
             k.partial = 'one obligation per divisor d of the lattice {%s} (mod 2^%d)%s; all numerators' % (
                 ', '.join(str(v) for v in denom_lattice(t)), t.bits, ', every lane dividing by d, plus one obligation with a different lattice divisor in every lane' if vec else '')
@@ -1685,6 +1710,30 @@ def denom_variants(k, tier):
         g.harness = {'pre': ['%s a0;' % d['nct'], '%s a1;' % d['dct']], 'args': ['a0', 'a1']}
         g.extra_roots = []
         g.part = 'GM expression, all n, all field values'
+        g.partial = None
+        g.gm = True
+        g.defines = ['AVM_MUL_UF']
+        out.append(g)
+    if d['vec'] and t.W > 1 and t.bits == 32 and not t.signed and k.family == 'denom_div':
+        # lane-wise code-level contract (modulo-lemma L3): for every field value, every lane of div evaluates the
+        # Granlund-Montgomery expression of THAT lane's fields (lanes independent, divisors may differ per lane)
+        g = copy.copy(k)
+        pn, pd = d['pn']
+        S = k.S
+        sh1t = T(dict(S[d['dct']])['sh1'], S)      # a mask in the SSE2 branch, a vector of 0 / 1 in the AVX2 / AVX-512 branches
+        if sh1t.kind == 'mask':
+            g.requires = [sh1t.wf('(%s).sh1' % pd)]
+            sh1v = lambda i: sh1t.view('(%s).sh1' % pd, i)
+        else:
+            g.requires = ['%s <= 1' % sh1t.lane('(%s).sh1' % pd, i) for i in range(t.W)]
+            sh1v = lambda i: '(%s != 0)' % sh1t.lane('(%s).sh1' % pd, i)
+        g.ensures = [('div lane %d evaluates the Granlund-Montgomery expression of its lane' % i,
+                      'spec_gm_div_u32_lane_ok((uint32_t)%s, (uint32_t)%s, (uint32_t)%s, (uint32_t)%s, %s, (uint32_t)%s, (uint32_t)%s)' % (
+                          t.lane('(%s).quot' % RV, i), t.lane('(%s).rem' % RV, i), t.lane(pn, i), t.lane('(%s).m' % pd, i),
+                          sh1v(i), t.lane('(%s).sh2' % pd, i), t.lane('(%s).d' % pd, i))) for i in range(t.W)]
+        g.harness = {'pre': ['%s a0;' % d['nct'], '%s a1;' % d['dct']], 'args': ['a0', 'a1']}
+        g.extra_roots = []
+        g.part = 'GM expression per lane, all n, all field values'
         g.partial = None
         g.gm = True
         g.defines = ['AVM_MUL_UF']
